@@ -243,6 +243,25 @@ def pushChain (MAX : Nat) : List String → List String → Except Err (List Str
     | .ok st => pushChain MAX st ns
     | .error e => .error e
 
+/-- `yr_compiler_add_file(c, f, NULL, name)`: the name is pushed, the file (with its chain of nested includes) is parsed, and
+    everything pushed is popped again — `popsOwnName` (translated: the pop is guarded by `file_name != NULL` like the push) says
+    whether the file's own name is. Returns the stack left behind. -/
+def addFile (MAX : Nat) (popsOwnName : Bool) (stack : List String) (name : String) (chain : List String) : Except Err (List String) :=
+  match pushFile G MAX stack name with
+  | .error e => .error e
+  | .ok st =>
+    match pushChain G MAX st chain with
+    | .error e => .error e
+    | .ok _ => .ok (if popsOwnName then stack else st)     -- the includes pop their own names at their end of file
+
+/-- several files through one compiler; stops at the first error (the compiler is unusable afterwards) -/
+def addFileSeq (MAX : Nat) (popsOwnName : Bool) : List String → List (String × List String) → List (Option Err)
+  | _, [] => []
+  | stack, (name, chain) :: rest =>
+    match addFile G MAX popsOwnName stack name chain with
+    | .error e => [some e]
+    | .ok st => none :: addFileSeq MAX popsOwnName st rest
+
 /-! ## 5. Strings per rule (parser.c:1087 `yr_parser_reduce_rule_declaration_phase_2`) -/
 
 /-- The loop over the rule's `YR_STRING`s (a chained string contributes one per piece):
@@ -461,6 +480,11 @@ def vmReadsProg (N : Nat) (writers : List String) : Nat → List String → Nat
     let c := if writers.contains op then 0 else cycle
     let r := vmTick G N c
     (if r.2 then 1 else 0) + vmReadsProg N writers r.1 rest
+
+/-- A scan over a non-blocking iterator that was suspended (ERROR_BLOCK_NOT_READY) and resumed after each of the waits `ws`:
+    the elapsed time the next clock read compares with the timeout. `restarts`: the stopwatch is started again on resume. -/
+def seenElapsed (restarts : Bool) (ws : List Nat) : Nat :=
+  if restarts then ws.getLast?.getD 0 else ws.sum
 
 /-- Block loop: `if (i % 4096 == 0 && timeout > 0) read clock`. Reads among byte positions `[a, a+k)`. -/
 def blockReads (S : Nat) : Nat → Nat → Nat
